@@ -10,6 +10,9 @@ CLAIMED={
  "C03":("runtime reference-model monitor + operation-history monitor: every CrossingSign/VertexCrossing/EdgeOrVertexCrossing call is compared with the exact four-orientation criterion and the documented vertex rule; random operation words on one EdgeCrosser are shadowed by the current chain vertex only and every answer must equal the stateless reference; symmetry and VertexCrossing laws checked model-free",
          "Held on every execution observed: ~10^6 (quick) / ~5*10^7 (thorough) quadruples incl. shared endpoints, exactly collinear and ulp-perturbed points, plus 4*10^4 / 2*10^6 crosser histories of 10-50 mixed calls. Exactly antipodal pairs are not edges and are skipped (counted).",
          "Trusted: internal/ref orientation (exact + derived SoS), the library's Ortho() as definition of the reference direction.","DESIGN.md section 5 C03"),
+ "C19":("runtime law monitor over point membership: for every generated pair the results of Union/Intersection/Contains/Intersects/Expanded/Complement/Project/AddPoint/PolarClosure are compared, probe by probe, with the closed-interval membership definition evaluated by the monitor (probes: every endpoint, its +-1 ulp neighbours, midpoints; grids for rectangles); caps: high-precision chord distances with 1e-14 slack; all results must be valid values",
+         "Held on every execution observed: ~10^6 (quick) / ~6*10^7 (thorough) pairs of r1/s1 intervals, r2 rectangles, lat-lng rectangles, caps and chord-angle sums, endpoints concentrated at +-pi, +-pi/2, 0 and their ulp neighbours, incl. empty/full/singleton/inverted. 'A does not contain B' is only asserted when a float witness exists (complement of A holds a float).",
+         "Trusted: the documented definition of membership in one interval (lo<=p<=hi, wrapped, -pi==pi), internal/ref 320-bit chord lengths for caps.","DESIGN.md section 5 C19"),
 }
 NA_REASON="monitor not built yet in this session (planned in DESIGN.md section 5); will be claimed once its check exists and is silent on the unchanged tree"
 def main():
